@@ -20,7 +20,10 @@ AUTH = 'https://authserver.mojang.com/'
 SESSION = 'https://sessionserver.mojang.com/session/minecraft/'
 OPS = ['authenticate', 'refresh', 'validate', 'invalidate', 'join',
        'sign_out']
-ERR_CODES = [400, 401, 403, 404, 405, 415, 418, 429, 500, 502, 503]
+# incl. codes without a registered reason phrase (nginx 499, Cloudflare
+# 520, ...)
+ERR_CODES = [400, 401, 403, 404, 405, 415, 418, 429, 500, 502, 503, 419,
+             451, 499, 520, 599]
 BODIES = {
     'error-object': '{"error":"ForbiddenOperationException","errorMessage":'
                     '"Invalid credentials.","cause":"UserMigratedException"}',
